@@ -1963,3 +1963,12 @@ mut2(
     ],
     mention=("--phase",),
 )
+mut(
+    "c16-crud-choices-lose-a-subset",
+    "C16",
+    "C16.crud",
+    "cdd/__main__.py",
+    'choices=("CRUD", "CR", "C", "R", "U", "D", "RD", "CU", "CD", "CRD"),',
+    'choices=("CRUD", "CR", "C", "R", "U", "D", "CU", "CD", "CRD"),',
+    mention=("RD",),
+)
